@@ -266,9 +266,19 @@ impl Interval {
         } else if self.lower() == self.upper() {
             self.lower.tan().into()
         } else {
+            // The function is monotonic between two poles; the bounds are on
+            // the same branch iff they fall into the same period counted from
+            // a pole.  (Comparing `tan(upper) >= tan(lower)` is not enough:
+            // for a width just below PI the two values coincide or swap by
+            // rounding although a pole lies between the bounds.)
+            let branch = |x: f32| {
+                ((f64::from(x) - std::f64::consts::FRAC_PI_2)
+                    / std::f64::consts::PI)
+                    .floor()
+            };
             let lower = self.lower.tan();
             let upper = self.upper.tan();
-            if upper >= lower {
+            if branch(self.lower) == branch(self.upper) && upper >= lower {
                 Interval::new(lower, upper)
             } else {
                 f32::NAN.into()
